@@ -7,7 +7,7 @@ set -u
 patch=$(readlink -f "$1"); tier=$2; shift 2
 scratch=$(mktemp -d /tmp/vt-XXXXXX)
 trap 'git -C /repo worktree remove --force "$scratch/repo" >/dev/null 2>&1; rm -rf "$scratch"' EXIT
-rsync -a --exclude 'build/work-*' --exclude 'replays/*' --exclude '.git' /verif/ "$scratch/verif/"
+rsync -a --exclude "build/work-*" --exclude "replays/*" --exclude ".git" "${VERIF_SRC:-/verif}/" "$scratch/verif/"
 git -C /repo worktree add --detach "$scratch/repo" HEAD >/dev/null 2>&1 || { echo "worktree failed"; exit 2; }
 if ! git -C "$scratch/repo" apply "$patch"; then echo "patch does not apply"; exit 2; fi
 sed -i "s#path = \"/repo\"#path = \"$scratch/repo\"#" "$scratch/verif/harness/Cargo.toml"
